@@ -696,7 +696,7 @@ def _iter_any(it, a):
 @ITER.add('list', 0)
 def _iter_list(it, a):
     items, zero = collect(it, a[0])
-    return ZeroCapList(items) if zero else LyList(items)
+    return LyList(items)
 
 
 @ITER.add('into', 1, kinds=['call'], stack=True)
@@ -1002,7 +1002,7 @@ def _list_sort(it, a):
 @STATIC['List'].add('collect', 1, kinds=['obj'])
 def _list_collect(it, a):
     items, zero = collect(it, need_iter(a[1], 'List.collect'))
-    return ZeroCapList(items) if zero else LyList(items)
+    return LyList(items)
 
 
 # ---------------------------------------------------------------------------
